@@ -348,6 +348,10 @@ func C13(t *rapid.T) *world.Scenario {
 		if Pct(t, lbl+"-rnc", 10) {
 			rcc = append(rcc, "no-cache")
 		}
+		if Pct(t, lbl+"-rma", 20) {
+			// a reload-style request: the window is still judged on the stored response's own age
+			rcc = append(rcc, "max-age="+itoa(Pick(t, lbl+"-rmav", int64(0), 0, 1, life)))
+		}
 		if len(rcc) > 0 {
 			rq.Header = append(rq.Header, H("Cache-Control", JoinCC(rcc)))
 		}
